@@ -342,6 +342,7 @@ pub fn run(ctx: &Ctx) -> PropResult {
         if ctx.quick() { "11th" } else { "single" }
     );
     meta.required_bins = vec![
+        "local-twin/zone-switch-judged",
         "year/negative", "year/negative-5+digits", "year/5+digits", "year/<4digits", "year/4digits", "time/offset0", "time/with-offset", "time/local-midnight-stratum",
         "datetime/serde-claimed", "datetime/display-only", "datetime/negative-offset", "malformed/rejected",
     ];
